@@ -282,6 +282,21 @@ def run_history(spec, acc):
                 return
         except BareScriptRuntimeError:
             pass
+        # the callee is looked up AFTER its arguments were evaluated: an argument that re-binds the called name (a script function
+        # replaced through systemGlobalSet, a library name taken over by a script function, a host function set to null) decides
+        # what is called
+        g = {'hostFn': lambda a, opts: 'host'}
+        res = bare_script.execute_script(bare_script.parse_script(
+            "function target(x):\n    return 'old ' + x\nendfunction\nfunction newTarget(x):\n    return 'new ' + x\nendfunction\n"
+            "function swap():\n    systemGlobalSet('target', newTarget)\n    return 1\nendfunction\n"
+            "function takeOver():\n    systemGlobalSet('arrayLength', newTarget)\n    return arrayNew(1, 2)\nendfunction\n"
+            "function nullHost():\n    systemGlobalSet('hostFn', newTarget)\n    return 3\nendfunction\n"
+            "return arrayNew(target(swap()), arrayLength(takeOver()), hostFn(nullHost()), target(2))"), {'globals': g})
+        acc.case(('argument-rebinds-callee', h), True)
+        acc.count('argument_rebinds_callee_checks')
+        if res != ['new 1', 'new [1,2]', 'new 3', 'new 2']:
+            acc.violation('callee-looked-up-before-its-arguments', f'{res!r} (expected the re-bound functions: [\'new 1\', \'new [1,2]\', \'new 3\', \'new 2\'])', {'history': 'argument-rebinds-callee'})
+            return
         # ONE options object, a different globals object for every run (fresh dict, dict with a host override, none at all):
         # each run gets the library added to ITS globals
         o = {'maxStatements': 1000}
